@@ -448,6 +448,9 @@ def rules(ctx):
     # in worker processes that outlive the call and are not reached by its seeding - nothing is drawn inside them (same rule as C07.R3)
     from .c07 import r3_job_effects
     r3_job_effects(ctx, rid="C13.R8", title="the per-subject jobs draw nothing (their generators belong to reused worker processes) and write only their own state")
+    # 'not on which calls were made earlier': an algorithm object run twice builds its samplers anew (same rule as C07.R13)
+    from .c07 import r13_fresh_samplers_every_run
+    r13_fresh_samplers_every_run(ctx, rid="C13.R12", why="a second run of the same algorithm object starts from the proposal scales adapted during the first: its result depends on the calls made earlier")
     ctx.trust("State.clone deep-copies (C01.R5); copy.deepcopy; joblib runs each job on its own state object")
     ctx.assume("receiver types follow the annotations / naming conventions listed in sa/effects.py (NAME_TYPES)")
 
